@@ -1,9 +1,9 @@
 (* C08/ProofsSet.v — Set / SET (copy loops), and Min / Max / Abs which are
    branches over Set / Neg / Reset: closed form and receiver independence, for an
    arbitrary carrier.  x.Set(x) is the identity up to one storage rounding, which
-   a fresh receiver applies as well.  Side condition [set_ok]: Set assigns Order
-   before Alloc, so a receiver with the operand's N but another Order is not
-   reallocated (F-SETORD, known finding of C01). *)
+   a fresh receiver applies as well.  No side condition beyond the storage
+   invariant [shape]: since HEAD d9fca78 Set calls Alloc BEFORE assigning Order,
+   so a receiver of another Order (or N) is reallocated (F-SETORD retired). *)
 From Coq Require Import ZArith List Bool Arith Lia.
 From ADV Require Import Base.Fl C01.Model C08.Spec C08.ProofsList C08.ProofsComb C08.ProofsScalar.
 Import ListNotations.
@@ -91,34 +91,34 @@ Qed.
 
 (* ---------------------------------------------------------------- Set, closed form *)
 Theorem set_closed c b (s : StA) :
-  shape (s c) -> set_ok c b s = true ->
+  shape (s c) ->
   exists s', set_reg F r32 c b s = Ok s' /\ (forall q, q <> c -> s' q = s q) /\ shape (s' c) /\
              norm (s' c) = set_canon (rk (s c)) (rd s b).
 Proof.
-  intros Hw Hok. unfold set_reg.
+  intros Hw. unfold set_reg.
   set (rb := rd s b). set (r0 := s c). set (k := rk r0).
-  set (r1 := mkReg k (rndk r32 k (rval rb)) (rorder rb) (rn r0) (rderiv r0) (rhess r0)).
+  set (r1 := mkReg k (rndk r32 k (rval rb)) (rorder r0) (rn r0) (rderiv r0) (rhess r0)).
   set (r2 := alloc F r1 (rn rb) (rorder rb)).
   set (n := rn rb). set (o := rorder rb).
   assert (Hn2 : rn r2 = n) by apply alloc_n.
   assert (Ho2 : rorder r2 = o) by apply alloc_order.
   assert (Hk2 : rk r2 = k) by (unfold r2; rewrite (proj1 (alloc_kv F r1 _ _)); reflexivity).
   assert (Hv2 : rval r2 = rndk r32 k (rval rb)) by (unfold r2; rewrite (proj2 (alloc_kv F r1 _ _)); reflexivity).
-  (* shape of r2, and what an aliased operand reads after the header update *)
+  (* shape of r2, and what an aliased operand reads after the header update: Alloc (HEAD d9fca78: called with
+     the receiver's OLD Order still in place) either changes nothing or hands out fresh zeroed storage *)
   assert (Hsh2 : shape r2 /\ (forall x, x = b -> b = Rg c -> forall i j, gdA r2 i = gdA r0 i /\ ghA r2 i j = ghA r0 i j)).
-  { unfold set_ok in Hok. fold r0 rb in Hok.
-    destruct (Nat.eqb_spec (rn r0) (rn rb)) as [En|En]; cbn [negb orb] in Hok.
-    - apply Nat.eqb_eq in Hok.
-      assert (E1 : r1 = mkReg k (rndk r32 k (rval rb)) (rorder r0) (rn r0) (rderiv r0) (rhess r0))
-        by (unfold r1; rewrite Hok; reflexivity).
-      assert (E2 : r2 = r1).
-      { unfold r2. replace (rn rb) with (rn r1) by (unfold r1; cbn [rn]; exact En).
-        replace (rorder rb) with (rorder r1) by reflexivity. apply alloc_noop. }
-      rewrite E2, E1. split; [exact Hw|]. intros; split; reflexivity.
+  { unfold r2, alloc. cbn [rn rorder r1].
+    destruct (Nat.eqb_spec (rn r0) (rn rb)) as [En|En]; cbn [andb].
+    - destruct (Nat.eqb_spec (rorder r0) (rorder rb)) as [Eo|Eo].
+      + split; [exact Hw|]. intros; split; reflexivity.
+      + split.
+        * split; cbn [rorder rderiv rhess rn]; intro Hq.
+          -- destruct (Nat.leb_spec 1 (rorder rb)); [|lia]. apply repeat_length.
+          -- destruct (Nat.leb_spec 1 (rorder rb)); [|lia]. destruct (Nat.leb_spec 2 (rorder rb)); [|lia].
+             apply (square_repeat F).
+        * intros x _ Eb. exfalso. apply Eo. unfold rb, r0. rewrite Eb. reflexivity.
     - split.
-      + unfold r2, alloc. cbn [rn rorder r1].
-        destruct (Nat.eqb_spec (rn r0) (rn rb)); [contradiction|]. cbn [andb].
-        split; cbn [rorder rderiv rhess rn]; intro Hq.
+      + split; cbn [rorder rderiv rhess rn]; intro Hq.
         * destruct (Nat.leb_spec 1 (rorder rb)); [|lia]. apply repeat_length.
         * destruct (Nat.leb_spec 1 (rorder rb)); [|lia]. destruct (Nat.leb_spec 2 (rorder rb)); [|lia].
           apply (square_repeat F).
@@ -203,27 +203,26 @@ Qed.
 
 Theorem set_indep c c' b (s : StA) :
   rk (s c) = rk (s c') -> shape (s c) -> shape (s c') ->
-  set_ok c b s = true -> set_ok c' b s = true ->
   agree c c' (set_reg F r32 c b s) (set_reg F r32 c' b s).
 Proof.
-  intros Hk Hc Hc' K K'.
-  destruct (set_closed c b s Hc K) as [t [E [_ [_ N]]]].
-  destruct (set_closed c' b s Hc' K') as [t' [E' [_ [_ N']]]].
+  intros Hk Hc Hc'.
+  destruct (set_closed c b s Hc) as [t [E [_ [_ N]]]].
+  destruct (set_closed c' b s Hc') as [t' [E' [_ [_ N']]]].
   rewrite E, E'. unfold agree. rewrite N, N', Hk. reflexivity.
 Qed.
 
-(* x.Set(x): the side condition is trivially true *)
-Lemma set_ok_self c (s : StA) : set_ok c (Rg c) s = true.
-Proof. unfold set_ok. cbn [rd]. rewrite !Nat.eqb_refl. reflexivity. Qed.
+(* Set never panics on a receiver satisfying the storage invariant (before HEAD d9fca78 a receiver with the
+   operand's N and a LOWER Order ran into an index panic: retired finding F-SETORD) *)
+Corollary set_total c b (s : StA) : shape (s c) -> exists s', set_reg F r32 c b s = Ok s'.
+Proof. intro Hc. destruct (set_closed c b s Hc) as [t [E _]]. exists t. exact E. Qed.
 
 (* ---------------------------------------------------------------- Min / Max / Abs *)
 Theorem min_indep c c' a b (s : StA) :
   rk (s c) = rk (s c') -> shape (s c) -> shape (s c') ->
-  set_ok c a s = true -> set_ok c b s = true -> set_ok c' a s = true -> set_ok c' b s = true ->
   agree c c' (do_min F r32 c a b s) (do_min F r32 c' a b s) /\
   agree c c' (do_max F r32 c a b s) (do_max F r32 c' a b s).
 Proof.
-  intros Hk Hc Hc' K1 K2 K3 K4. unfold do_min, do_max. rewrite <- Hk.
+  intros Hk Hc Hc'. unfold do_min, do_max. rewrite <- Hk.
   split.
   - destruct (fltb F _ _); apply set_indep; auto.
   - destruct (fltb F _ _); apply set_indep; auto.
@@ -233,14 +232,17 @@ Qed.
    known finding F-C08-ABS0-ORDER) *)
 Theorem abs_indep c c' a (s : StA) :
   rk (s c) = rk (s c') -> shape (s c) -> shape (s c') ->
-  set_ok c a s = true -> set_ok c' a s = true ->
   sign_of F (rval (rd s a)) <> 0%Z ->
   agree c c' (do_abs F r32 c a s) (do_abs F r32 c' a s).
 Proof.
-  intros Hk Hc Hc' K K' Hs. unfold do_abs.
+  intros Hk Hc Hc' Hs. unfold do_abs.
   destruct (Z.eqb_spec (sign_of F (rval (rd s a))) (-1)).
   - unfold do_mon. apply monadic_indep; auto.
   - destruct (Z.eqb_spec (sign_of F (rval (rd s a))) 0); [contradiction|]. apply set_indep; auto.
 Qed.
+
+(* the concrete twin ABS has the same body since HEAD 2fc8894 *)
+Theorem ABS_concrete_is_abs c a (s : StA) : do_ABS_concrete F r32 c a s = do_abs F r32 c a s.
+Proof. reflexivity. Qed.
 
 End SetOp.
